@@ -240,7 +240,7 @@ def run_random(ctx, case):
             objs = []
             for i in range(8):
                 kind, label = rng.choice(VARIANTS)
-                o = store.register(srv, kind, rng.choice(('alice', 'bob')), rng, policy='public' if rng.random() < 0.5 else None,
+                o = store.register(srv, kind, rng.choice(('alice', 'bob')), rng, policy='open' if rng.random() < 0.5 else None,
                                    masks=masks_of(label), names=['o%d' % i], state='pre')
                 if o:
                     objs.append(o)
